@@ -214,7 +214,8 @@ class MinPathCoverCycles(walkmodel.AbstractWalkModelDiGraph):
     def get_lowerbound_k(self):
 
         if self._lowerbound_k is None:
-            stG = stdigraph.stDiGraph(self.G)
-            self._lowerbound_k = stG.get_width(edges_to_ignore=self.edges_to_ignore)
+            # same convention as the k-models: keep the additional starts/ends, ignore the synthetic source/sink edges
+            stG = stdigraph.stDiGraph(self.G, additional_starts=self.additional_starts, additional_ends=self.additional_ends)
+            self._lowerbound_k = stG.get_width(edges_to_ignore=list(stG.source_sink_edges.union(self.edges_to_ignore)))
 
         return self._lowerbound_k
